@@ -54,4 +54,93 @@ static std::vector<symns::Frac> fracVecTimesM44 (const std::vector<symns::Frac>&
 static int native_c13t_q = (symns::natives ()["Box3.extendByPoint"].q = &fracExtendByPoint, symns::natives ()["BoxAlgo.vecTimesM44"].q = &fracVecTimesM44, 0);
 using namespace IMATH_INTERNAL_NAMESPACE;
 #include "ops_c13t.h"
-int main (int argc, char** argv) { return symns::sym_main (argc, argv); }
+
+// `tvbounds <seed> <n> [--idx f]`: translator validation on STRUCTURED boxes (audit r2 N3).  The generic `tv` mode draws random
+// coordinates, so `min.x == lowest` never happens and only one of the six "not infinite" exits of isInfinite() — hence one of the six
+// copies of the 2^9-leaf Arvo subtree — is executed natively.  Here the first k (k = 0..6, uniform) of the coordinates
+// min.x, max.x, min.y, max.y, min.z, max.z (the order in which isInfinite() tests them) are the type bounds, the others lattice values;
+// one box in eight is inverted on some axis; matrix entries are in {0, +-1/4, +-1/2, +-1} with uniform signs (the order of a < b in the
+// Arvo loop is the sign pattern of the 3x3 block), so no product overflows to inf - inf = NaN.  Real instantiation vs tree, bit for bit,
+// at double and float; prints the leaves reached per entry.
+template <class T> static void tvbOne (const symns::FnRecord& f, void (*body) (symns::Ctx<T>&), bool hasR, int kind /*0 affine-column entry, 1 full matrix, 2 projective*/,
+                                       unsigned long seed, long n, std::set<size_t>& hit, long& evals, long& fails, const char* ty)
+{
+    std::mt19937_64 g (seed * 1000003ul + sizeof (T) * 17 + kind);
+    const T         lo = std::numeric_limits<T>::lowest (), hi = std::numeric_limits<T>::max ();
+    static const double mag[] = {0.25, 0.5, 1.0, 1.0};
+    for (long it = 0; it < n; ++it)
+    {
+        std::vector<T> in;
+        T              bmin[3], bmax[3];
+        for (int i = 0; i < 3; ++i)
+        {
+            long a = (long) (g () % 9) - 4, c = (long) (g () % 9) - 4;
+            if (a > c) std::swap (a, c);
+            bmin[i] = (T) a; bmax[i] = (T) c;
+        }
+        if (g () % 8 == 0) { int i = (int) (g () % 3); bmin[i] = (T) 2; bmax[i] = (T) -1; } // inverted on one axis
+        int k = (int) (g () % 7);
+        for (int j = 0; j < k; ++j) { if (j % 2 == 0) bmin[j / 2] = lo; else bmax[j / 2] = hi; }
+        for (int i = 0; i < 3; ++i) in.push_back (bmin[i]);
+        for (int i = 0; i < 3; ++i) in.push_back (bmax[i]);
+        for (int i = 0; i < 16; ++i)
+        {
+            double v = mag[g () % 4] * ((g () & 1) ? 1 : -1);
+            if (g () % 16 == 0) v = 0;
+            in.push_back ((T) v);
+        }
+        if (kind == 2)
+        {
+            // which term of the affine test fails first: uniform over the four positions (and sometimes none: the dummy leaf)
+            int j = (int) (g () % 4);
+            for (int q = 0; q < j; ++q) in[6 + 4 * q + 3] = (T) 0;
+            if (in[6 + 4 * j + 3] == (T) (j == 3 ? 1 : 0)) in[6 + 4 * j + 3] = (T) 0.5;
+            if (g () % 16 == 0) { in[6 + 3] = 0; in[6 + 7] = 0; in[6 + 11] = 0; in[6 + 15] = 1; }
+        }
+        if (hasR) for (int i = 0; i < 6; ++i) in.push_back ((T) ((long) (g () % 7) - 3));
+        std::string d;
+        size_t      leaf = (size_t) -1;
+        bool        ok   = symns::tvOne<T> (f, body, in, d, &leaf);
+        ++evals;
+        if (leaf != (size_t) -1) hit.insert (leaf);
+        if (!ok && fails++ < 5)
+        {
+            std::ostringstream os;
+            os.precision (17);
+            for (auto& x : in) os << (double) x << " ";
+            printf ("TVFAIL %s %s :: %s :: in=%s\n", ty, f.name.c_str (), d.c_str (), os.str ().c_str ());
+        }
+    }
+}
+#define TVB(ident, hasR, kind)                                                                                                   \
+    {                                                                                                                            \
+        const symns::FnRecord* f = nullptr;                                                                                      \
+        for (size_t i = 0; i < symns::entries ().size (); ++i) if (&X_##ident::run<symns::Sym> == *symns::entries ()[i].sym.target<void (*) (symns::Ctx<symns::Sym>&)> ()) f = recs[i]; \
+        std::set<size_t> hit; long ev = 0, fl = 0;                                                                               \
+        tvbOne<double> (*f, &X_##ident::run<double>, hasR, kind, seed, n, hit, ev, fl, "double");                                \
+        tvbOne<float> (*f, &X_##ident::run<float>, hasR, kind, seed, n, hit, ev, fl, "float");                                   \
+        printf ("TVB %s evals=%ld fails=%ld leaves_hit=%zu paths=%zu\n", f->name.c_str (), ev, fl, hit.size (), f->paths.size ());  \
+        totalFails += fl;                                                                                                        \
+    }
+int main (int argc, char** argv)
+{
+    if (argc > 1 && std::string (argv[1]) == "tvbounds")
+    {
+        unsigned long seed = argc > 2 ? strtoul (argv[2], 0, 10) : 1;
+        long          n    = argc > 3 ? atol (argv[3]) : 20000;
+        for (int i = 1; i + 1 < argc; ++i)
+            if (std::string (argv[i]) == "--idx") symns::loadIndex (argv[i + 1]);
+        std::vector<symns::FnRecord*> recs;
+        for (auto& e : symns::entries ()) recs.push_back (symns::explore (e));
+        long totalFails = 0;
+        TVB (xf0_affine, false, 0)
+        TVB (xf1_affine, true, 0)
+        TVB (xf2, false, 1)
+        TVB (xf3, true, 1)
+        TVB (xf0_projective, false, 2)
+        TVB (xf1_projective, true, 2)
+        printf ("TVBDONE fails=%ld\n", totalFails);
+        return totalFails ? 1 : 0;
+    }
+    return symns::sym_main (argc, argv);
+}
